@@ -1,0 +1,6 @@
+//go:build verif
+
+package retention
+
+// VerifHandle runs one pass of the retention service (the function registered with the ticker).
+func (s *Service) VerifHandle() { s.handle() }
